@@ -24,6 +24,18 @@ pub use fe32::*;
 #[cfg(not(any(any(target_arch = "arm"), feature = "force-32bits")))]
 pub use fe64::*;
 
+#[cfg(feature = "verif-hooks")]
+impl Fe {
+    /// verification hook: the small-constant multiplications of the X25519 ladders (121666 and 9)
+    pub fn verif_mul_small(&self, nine: bool) -> Fe {
+        if nine {
+            self.mul_small::<9>()
+        } else {
+            self.mul_small::<121666>()
+        }
+    }
+}
+
 impl Fe {
     /// Raise a field element to 2^255-23
     pub fn pow25523(&self) -> Fe {
